@@ -282,6 +282,10 @@ let mut it = verif_patchset_into_iter(patch_set);
 None => { break; } } }
 //@edit rule=ghost before=<<} None => { break; } } }>>
         proof {
+            // (reached for a removed file too when the guard is written `if !removed { .. }` instead of `continue`)
+            if removed_file(files[n0]) {
+                assert(result@ == result0); // [Da.step.removed_file_adds_nothing]
+            } else {
             let key0 = da_key(files[n0]);
             // exactly one leading "b/" is removed (whichever reading of the path), checked in a scope of its own
             assert(true) by {
@@ -293,6 +297,7 @@ None => { break; } } }
             assert forall|key: PathBuf, j: int| key != key0 && last_file_with_key(files, n0, key, j) implies last_file_with_key(files, n, key, j) by {}
             assert forall|key: PathBuf, j: int| key != key0 && last_file_with_key(files, n, key, j) implies last_file_with_key(files, n0, key, j) by {}
             assert forall|j: int| last_file_with_key(files, n, key0, j) implies j == n0 by {}
+            }
         }
 //@edit rule=ghost before=<<Ok(result)>>
     proof {
